@@ -59,7 +59,14 @@ def gen_proc(rng, nm, types, depth=0, allow_internal=True, kind=None):
     kind = kind or rng.choice(["subroutine", "function"])
     p = {"kind": kind, "name": nm.fresh("p" if kind == "subroutine" else "f"),
          "args": [], "doc": rng.random() < 0.8, "locals": [], "internal": [], "calls": [],
-         "perm": None, "namelist": None, "common": None, "localtype": None, "localiface": None, "uses": []}
+         "perm": None, "namelist": None, "common": None, "localtype": None, "localiface": None, "uses": [],
+         # round 6: a function may declare its result: a name (`result(r)`) and / or a type, intrinsic or derived
+         "result": None, "rtype": None}
+    if kind == "function":
+        if rng.random() < 0.3:
+            p["result"] = nm.fresh("r")
+        if rng.random() < 0.4:
+            p["rtype"] = rng.choice(types) if types and rng.random() < 0.7 else "integer"
     for _ in range(rng.randint(0, 3)):
         a = {"name": nm.fresh("a"), "doc": rng.random() < 0.5, "type": None}
         if types and rng.random() < 0.3:
@@ -153,15 +160,17 @@ def gen_module(rng, nm, earlier_mods, size):
     if funcs and rng.random() < 0.6:
         m["generics"].append({"name": rng.choice(OPS[:6] + OPS[7:]), "of": [funcs[0]["name"]], "doc": rng.random() < 0.7, "perm": None})
     # interface blocks with explicit bodies: named generic, unnamed (interface procedures), abstract
+    # round 6: the bodies may use the module's own derived types (host association / `import`) for arguments and results
+    own = [t["name"] for t in m["types"]]
     for _ in range(pick_count(rng, [(0, 5), (1, 3), (2, 1)])):
         form = rng.choice(["named", "unnamed", "unnamed"])
-        bodies = [gen_proc(rng, nm, [], allow_internal=False) for _ in range(rng.randint(1, 2))]
+        bodies = [gen_proc(rng, nm, own, allow_internal=False) for _ in range(rng.randint(1, 2))]
         for b in bodies:
             b["locals"], b["namelist"], b["common"], b["localtype"], b["localiface"] = [], None, None, None, None
         m["ifaces"].append({"form": form, "name": nm.fresh("ifc") if form == "named" else None, "bodies": bodies,
                             "doc": rng.random() < 0.6})
     for _ in range(pick_count(rng, [(0, 5), (1, 3), (2, 1)])):
-        b = gen_proc(rng, nm, [], allow_internal=False)
+        b = gen_proc(rng, nm, own, allow_internal=False)
         b["locals"], b["namelist"], b["common"], b["localtype"], b["localiface"] = [], None, None, None, None
         m["absints"].append(b)
     for _ in range(pick_count(rng, [(0, 6), (1, 2)])):
@@ -172,7 +181,7 @@ def gen_module(rng, nm, earlier_mods, size):
                          "doc": rng.random() < 0.7}
     # separate module procedures (interface in the module, body in a submodule)
     for _ in range(pick_count(rng, [(0, 5), (1, 3), (2, 2)])):
-        b = gen_proc(rng, nm, [], allow_internal=False)
+        b = gen_proc(rng, nm, own, allow_internal=False)
         b["locals"], b["namelist"], b["common"], b["localtype"], b["localiface"] = [], None, None, None, None
         b["implform"] = rng.choice(["procedure", "full"])
         m["modprocs"].append(b)
@@ -351,6 +360,11 @@ def gen_options(rng):
 # of the output (`module/`, `lists/`, `page/`, the default output directory `doc`).
 PAGE_DIR_NAMES = ["sub", "other", "deeper", "examples", "dev", "module", "lists", "proc", "page", "doc", "media", "src"]
 PAGE_LEAF_NAMES = ["first", "leaf", "last", "notes"]
+# File names of static pages are the user's: release notes and versioned documents have dots in their stem
+# (`release-1.2.md`, `v2.0-notes.md`), directories too (`v1.0/`).  Whatever FORD calls the page it writes for such a
+# file, the links it writes itself (side-bar tree, breadcrumbs, navigation bar, search index) have to name that file.
+PAGE_DOTTED_LEAF_NAMES = ["release-1.2", "v2.0-notes", "changes.2024", "a.b.c", "notes.final", "x..y"]
+PAGE_DOTTED_DIR_NAMES = ["v1.0", "rel.2"]
 
 
 def gen_pages(rng):
@@ -362,11 +376,17 @@ def gen_pages(rng):
         # a name seen before (elsewhere in the tree) with probability 0.4, else any name of the pool
         cand = [n for n in (used if used and rng.random() < 0.4 else PAGE_DIR_NAMES) if n not in avoid]
         n = rng.choice(cand or [x for x in PAGE_DIR_NAMES if x not in avoid])
+        if dotted and rng.random() < 0.25:
+            n = rng.choice([x for x in PAGE_DOTTED_DIR_NAMES if x not in avoid])
         used.append(n)
         return n
 
     def leaf():
+        if dotted and rng.random() < 0.6:
+            return rng.choice(PAGE_DOTTED_LEAF_NAMES)
         return rng.choice(PAGE_LEAF_NAMES)
+
+    dotted = rng.random() < 0.35
 
     pages = {"index.md": {"title": "Notes"}}
     if rng.random() < 0.7:
@@ -456,7 +476,10 @@ def page_asset_links(P, rel):
         out.append((f"[file]({f})", "page-dir-file"))
     if pa["page_links"]:
         for other in sorted(P["pages"]):
-            if other != rel:
+            # a hand-written link names the output file as the *user* expects it; for a page file with a dot in its stem
+            # that name is FORD's decision (C17-dotted-stem-truncated), so no hand-written link is generated to such a
+            # page - the links FORD writes itself (side-bar tree, breadcrumbs, search index) are the ones under test
+            if other != rel and "." not in other.rsplit("/", 1)[-1][:-3]:
                 out.append((f"[page]({posixpath.relpath(other[:-3] + '.html', d or '.')})", "page-relative"))
     return out
 
@@ -551,6 +574,8 @@ def md_link_pool(P):
     if P["pages"]:
         for rel in P["pages"]:
             html = rel[:-3] + ".html"
+            if "." in rel.rsplit("/", 1)[-1][:-3]:
+                continue    # hand-written name of a page whose name is FORD's decision, see page_asset_links
             pool.append((f"[pg](|page|/{html})", "alias-page"))
     if P["media"]:
         pool.append(("![pic](|media|/pic.png)", "alias-media"))
@@ -654,7 +679,7 @@ def _decl(v):
 def render_proc(cx, p, ind, in_iface=False, prefix=""):
     L = []
     args = ", ".join(a["name"] for a in p["args"])
-    head = f"{prefix}{p['kind']} {p['name']}({args})"
+    head = f"{prefix}{p['kind']} {p['name']}({args})" + (f" result({p['result']})" if p.get("result") else "")
     L.append(ind + head)
     L += cx.doc(p["doc"], f"procedure {p['name']}", ind + "  ")
     for u in p.get("uses", []):
@@ -678,8 +703,9 @@ def render_proc(cx, p, ind, in_iface=False, prefix=""):
     for a in p["args"]:
         L.append(f"{ind}  {_decl(a)} :: {a['name']}")
         L += cx.doc(a["doc"], f"argument {a['name']}", ind + "    ")
-    if p["kind"] == "function":
-        pass
+    if p["kind"] == "function" and p.get("rtype"):
+        rt = p["rtype"] if p["rtype"] == "integer" else f"type({p['rtype']})"
+        L.append(f"{ind}  {rt} :: {p.get('result') or p['name']}")
     for v in p["locals"]:
         L.append(f"{ind}  {_decl(v)} :: {v['name']}")
         L += cx.doc(v["doc"], f"local {v['name']}", ind + "    ")
@@ -693,8 +719,8 @@ def render_proc(cx, p, ind, in_iface=False, prefix=""):
         L.append(f"{ind}  namelist /{n['name']}/ {', '.join(n['vars'])}")
         L += cx.doc(n["doc"], f"namelist {n['name']}", ind + "    ")
     if not in_iface:
-        if p["kind"] == "function":
-            L.append(f"{ind}  {p['name']} = 1")
+        if p["kind"] == "function" and p.get("rtype") in (None, "integer"):
+            L.append(f"{ind}  {p.get('result') or p['name']} = 1")
         for c in p["calls"]:
             L.append(f"{ind}  call {c}()")
         for q in p["internal"]:
